@@ -52,7 +52,7 @@ fn gen_mnemonic(rng: &mut Rng, existing: &[String]) -> String {
         0 | 1 | 2 if !existing.is_empty() => {
             let base = &existing[rng.below(existing.len() as u64) as usize];
             let (alpha, _) = mnemonic::split_suffix(base.as_bytes());
-            let n = [2u64, 3, 10, 12, 125][rng.below(5) as usize];
+            let n = [2u64, 3, 10, 12, 125, 11, 21, 101][rng.below(8) as usize];
             let s = n.to_string();
             let mut a = String::from_utf8(alpha.to_vec()).unwrap();
             a.truncate(12 - s.len());
@@ -62,7 +62,7 @@ fn gen_mnemonic(rng: &mut Rng, existing: &[String]) -> String {
         3 => {
             let n_upper = 1 + rng.below(3) as usize;
             let u = rng.letters(n_upper, true, alphabet);
-            format!("{u}{}", [1u64, 2, 12, 125, 4096][rng.below(5) as usize])
+            format!("{u}{}", [1u64, 2, 12, 125, 4096, 11, 31, 1001][rng.below(8) as usize])
         }
         // one character
         4 if rng.below(2) == 0 => rng.letters(1, true, 26),
